@@ -232,9 +232,14 @@ class Sched:
                 self.plan_used += 1
                 self.decisions += 1
                 if v % 2 and self.alarm_at > self.w.clock.now and not self._helper_alive():
-                    self.w.fault_fired("thread_stall")
-                    self.w.event("sched", "stall", round(self.alarm_at - self.w.clock.now, 6))
-                    self.w.clock.advance(self.alarm_at - self.w.clock.now)
+                    # the process is descheduled: until the alarm is due (v % 4 == 1) or until just before it, so that
+                    # it goes off inside whatever the program does next (v % 4 == 3)
+                    gap = self.alarm_at - self.w.clock.now
+                    d = gap if v % 4 == 1 else max(gap - 0.5, 0.0)
+                    if d > 0:
+                        self.w.fault_fired("thread_stall")
+                        self.w.event("sched", "stall", round(d, 6))
+                        self.w.clock.advance(d)
             self.deliver_alarm()
             return
         if not self.multi:
